@@ -167,11 +167,12 @@ def check_assembly(res, inp, n, out, cap, pending):
         lcs = [",".join(tu.bits(nx.to_numpy_array(lc).astype(int)) for lc in iso["lcs"]) or "-" for iso in cap["isos"]]
     except Exception:  # noqa: BLE001 (a map that is not total on the vertices is reported by the entry checks)
         res.count("errors", "assembly-not-encodable")
-        return
+        return False
     impl2 = dict(pre=src if ok else None, out=[src[k] for k in kept] if ok and all(k >= 0 for k in kept) else None,
                  maps=[lab(e[1]["map"]) for e in out])
     pending.append((f"alt.solve n={n} isos={';'.join(tu.bits(iso['iso']) for iso in cap['isos'])} lcs={';'.join(lcs)} maps={';'.join(maps)} pick={pick_tok}",
                     dict(inp, impl=impl2, what="loops")))
+    return True
 
 
 def check_relabel(ctx, res, drv, pending):
@@ -246,8 +247,9 @@ def run_setting(ctx, res, drv, adj, kw, seed, pending, default=False, scramble=F
         res.violation("result:not-a-list-of-entries", f"solve() returned {type(out).__name__}, not a list of (circuit, info) entries ({err_class(e)})", input=inp)
         return
     if cap is not None:
-        stats["observed"] += 1
-        check_assembly(res, inp, n, out, cap, pending)
+        # counted as observed only when the loops were also handed to the model (check_assembly gives up on maps it cannot encode)
+        if check_assembly(res, inp, n, out, cap, pending):
+            stats["observed"] += 1
     else:
         res.count("errors", "assembly-not-observed")
     graphs = []
